@@ -21,7 +21,10 @@ def tag_cfg(rng):
     svcs = {}
     for nm in names:
         s = {"constructor": "fx.NewA", "arguments": [nm]}
-        ts = rng.sample(tags, rng.randint(0, len(tags)))
+        if rng.random() < 0.3:
+            # a service made from a value carries tags and receives decorators like any other
+            s = {"value": "&fx.Obj{}"}
+        ts = rng.sample(tags, rng.randint(0 if "constructor" in s else 1, len(tags)))
         if ts:
             s["tags"] = [t if rng.random() < 0.3 else gen.tag_obj(rng, t, rng.choice([0, 1, -1, 5, 5, 5, 100, -100, 2**31, -2**31])) for t in ts]
         if rng.random() < 0.3:
